@@ -19,8 +19,8 @@ RULE = ("Constructor inputs as plain data x one global duration setting (readout
         "default 2,1,1,2): construct_repetition_code_circuit ('full'), ..._simplified ('simplified'), "
         "..._multi_round_circuit ('multi', rounds = distinct counts from 0..5) with distance, data/ancilla bits, cycles, "
         "description route {none, from_chain, from_initial_state, from_connectivity(sub-chain of the three shipped "
-        "layouts), composite description = such a sub-chain with 1-3 excluded gates / an excluded ancilla, which yields "
-        "parking-only gate layers} and refocusing on/off as in C09 (a third of the cases prepares data / ancilla qubits in any of the six initial states 0 1 + - +i -i), and construct_calibration_circuit (QUBIT / QUTRIT, 1..6 qubits on "
+        "layouts), composite description = such a sub-chain with 0-3 excluded gates / an excluded ancilla / one qubit whose rotations are excluded, "
+        "given to the full or the simplified constructor, which yields parking-only gate layers and layers that close an ancilla without activating another} and refocusing on/off as in C09 (a third of the cases prepares data / ancilla qubits in any of the six initial states 0 1 + - +i -i), and construct_calibration_circuit (QUBIT / QUTRIT, 1..6 qubits on "
         "arbitrary distinct channel indices). duration_grid enumerates all 4^4 settings over {0.5,1,2,3} for a fixed d=2, "
         "3-cycle chain (full constructor, refocusing on) completely; cycle_sweep enumerates cycles 0..6 (thorough 0..8) x "
         "{full, simplified} x refocusing on/off x 3 (thorough 5) fixed duration settings for a d=3 chain. Each case builds the circuit inside the override "
@@ -294,10 +294,11 @@ def strat_composite():
         start = draw(st.integers(0, n_data - d))
         sub = chain[2 * start: 2 * start + 2 * d - 1]
         edges = [[sub[i], sub[i + 1]] for i in range(len(sub) - 1)]
-        n_ex = draw(st.integers(1, min(3, len(edges))))
+        n_ex = draw(st.integers(0, min(3, len(edges))))
         ex_edges = [edges[i] for i in sorted(draw(st.lists(st.integers(0, len(edges) - 1), min_size=n_ex, max_size=n_ex, unique=True)))]
         ex_qubits = [draw(st.sampled_from(sub[1::2]))] if draw(st.integers(0, 3)) == 0 else []
-        case = {"ctor": "full", "desc": "composite", "layout": layout, "qubits": sub, "exclude_edges": ex_edges,
+        case = {"ctor": draw(st.sampled_from(["full", "full", "simplified"])), "desc": "composite",
+                "exclude_rotation": [draw(st.sampled_from(sub))] if draw(st.integers(0, 4)) == 0 else [], "layout": layout, "qubits": sub, "exclude_edges": ex_edges,
                 "exclude_qubits": ex_qubits, "only_required": draw(st.booleans()), "d": d,
                 "data": draw(st.lists(st.integers(0, 1), min_size=d, max_size=d)), "anc": None,
                 "refocus": draw(st.booleans()), "cycles": draw(st.sampled_from([1, 2, 3, 4])),
